@@ -198,6 +198,8 @@ def run(ctx):
         return out
 
     dgroups = {}
+    count_mismatch = []   # reported after the scan, and only for geometries without an unwritten-position finding (same defect, one report)
+    stale_geoms = set()
     for i, (c, m) in enumerate(zip(cases, meta)):
         if i >= len(a):
             break
@@ -248,9 +250,11 @@ def run(ctx):
                 wrong = [j for j in range(n_in) if j >= len(y) or y[j] != exp[j]]
                 stale = [j for j in wrong if j < len(y) and y[j] == m["prev"][j]]
                 if stale and len(stale) == len(wrong):
+                    stale_geoms.add(g)
                     viol("depuncture-stale-output", f"depuncture [{g}] leaves output position(s) {stale[:8]} unwritten: they keep the previous content of the buffer",
                          {"geometry": g, "received": hx(m["data"]), "out_prefill": hx(m["prev"]), "stale_positions": stale[:16],
-                          "expected_at_first": exp[stale[0]], "actual_at_first": y[stale[0]], "prefill_at_first": m["prev"][stale[0]], "actual_output": out[0]})
+                          "expected_at_first": exp[stale[0]], "actual_at_first": y[stale[0]], "prefill_at_first": m["prev"][stale[0]], "actual_output": out[0],
+                          "returned_count": int(out[1]), "expected_count": n_in - min(sum(masks[g]), len(m["data"]))})
                 else:
                     j = wrong[0]
                     viol("depuncture-wrong-output", f"depuncture [{g}] is not: received values at the kept positions, 0 elsewhere",
@@ -258,8 +262,8 @@ def run(ctx):
                           "expected": exp[j], "actual": y[j] if j < len(y) else None, "actual_output": out[0]})
             nexp = n_in - min(sum(masks[g]), len(m["data"]))
             if int(out[1]) != nexp:
-                viol("depuncture-count", f"depuncture [{g}] does not return the number of erased positions ({nexp})",
-                     {"geometry": g, "received": hx(m["data"]), "out_prefill": hx(m["prev"]), "expected": nexp, "actual": int(out[1])})
+                count_mismatch.append((g, f"depuncture [{g}] does not return the number of erased positions ({nexp})",
+                                       {"geometry": g, "received": hx(m["data"]), "out_prefill": hx(m["prev"]), "expected": nexp, "actual": int(out[1])}))
         elif op == "dd":
             k, mm, n_in = GEOMD[g]
             y = unhex(out[0]) if out and out[0] not in ("size", "?", "n/a") else None
@@ -278,7 +282,11 @@ def run(ctx):
                 viol("depuncture-stale-output", f"depuncture [{g}] output depends on the previous content of the output buffer at position(s) {pos[:8]}",
                      {"geometry": g, "received": hx(list(data)), "out_prefill_a": hx(base[0]), "out_prefill_b": hx(other[0]),
                       "differing_positions": pos[:16], "output_a": hx(base[1]), "output_b": hx(other[1]), "count_a": base[2], "count_b": other[2]})
+                stale_geoms.add(g)
                 break
+    for g, text_, rep in count_mismatch:
+        if g not in stale_geoms:
+            viol("depuncture-count", text_, rep)
 
     # compositions on the C++ alone: depuncture(puncture(x)) = x on kept-and-transmitted positions, 0 elsewhere
     r = ctx.rng.fork("c11-oracle")
